@@ -346,6 +346,7 @@ func C11(tier common.Tier) int {
 		}
 	})
 	run.Count("race_detector_runs_sampling_complement", raceRuns)
+	c11SyncSeam(run, bound)
 	return run.Finish()
 }
 
